@@ -679,7 +679,7 @@ func (dc *ClientDnsConnection) AutodetectFragmentSize() (uint32, error) {
 	var max uint32 = 0
 
 	log.Debugf("Autoprobing max downstream fragment size... (skip with -m fragsize)")
-	for !dc.Closed() && (fragmentRange >= 8 || max < 300) {
+	for !dc.Closed() && fragmentRange > 0 && (fragmentRange >= 8 || max < 300) {
 		/* stop the slow probing early when we have enough bytes anyway */
 		for i := 0; !dc.Closed() && i < 3; i++ {
 			resp, err := dc.SendFragmentSizeTest(proposed, secs(1))
@@ -709,25 +709,24 @@ func (dc *ClientDnsConnection) AutodetectFragmentSize() (uint32, error) {
 					log.WithError(err).Errorf("Corruption in downstream even with %v. Try Base32 downstream enodeer: %v", dc.Serializer.Downstream.Encoder, err)
 					return 0, err
 				}
-			} else {
-				max = proposed
 			}
 
-			if max < 0 {
-				break
-			}
+			max = proposed
+			break
+		}
 
-			fragmentRange = fragmentRange >> 1
+		// Narrow the search whether or not the probe got through: a size that does not pass must make the next
+		// probe smaller, otherwise the same probe is repeated for ever
+		fragmentRange = fragmentRange >> 1
 
-			if max == proposed {
-				/* Try bigger */
-				log.Tracef("%d ok, will try %d next.. ", proposed, proposed+fragmentRange)
-				proposed += fragmentRange
-			} else {
-				/* Try smaller */
-				log.Tracef("%d not ok, will try %d next.. ", proposed, proposed-fragmentRange)
-				proposed -= fragmentRange
-			}
+		if max == proposed {
+			/* Try bigger */
+			log.Tracef("%d ok, will try %d next.. ", proposed, proposed+fragmentRange)
+			proposed += fragmentRange
+		} else {
+			/* Try smaller */
+			log.Tracef("%d not ok, will try %d next.. ", proposed, proposed-fragmentRange)
+			proposed -= fragmentRange
 		}
 	}
 	if dc.Closed() {
